@@ -823,12 +823,35 @@ class BuiltinMixin:
             elif isinstance(v, VAst):
                 res.append(z3.BoolVal(n == 'AST'))
             elif isinstance(v, VPy):
-                res.append(self.uf(f'py_is_{n}', [self.ctx.sorts.PyVal], z3.BoolSort())(v.t))
+                res.append(self.py_type_pred(n)(v.t))
             elif isinstance(v, (VList, VSeq, VHeapList)):
                 res.append(z3.BoolVal(n == 'list'))
             else:
                 raise OutOfReach(f'isinstance on {v.kind}')
         return z3.Or(*res) if len(res) > 1 else res[0]
+
+    def py_type_pred(self, n):
+        """isinstance of an opaque Python value: one uninterpreted predicate per type; the built-in types are pairwise disjoint
+        except that every bool is an int (stated as axioms, so that no counterexample is both a str and a bool)"""
+        ctx = self.ctx
+        PV = ctx.sorts.PyVal
+        f = self.uf(f'py_is_{n}', [PV], z3.BoolSort())
+        seen = ctx.str_fns.setdefault('py_type_preds', [])
+        BUILTIN_TYPES = ('bool', 'int', 'float', 'str', 'list', 'dict', 'tuple', 'set', 'frozenset', 'bytes')
+        if n not in seen:
+            x = z3.Const('x!pt', PV)
+            for m in seen:
+                if n in BUILTIN_TYPES and m in BUILTIN_TYPES:
+                    g = self.uf(f'py_is_{m}', [PV], z3.BoolSort())
+                    if {n, m} == {'bool', 'int'}:
+                        b, i = (f, g) if n == 'bool' else (g, f)
+                        ctx.axioms.append(z3.ForAll([x], z3.Implies(b(x), i(x)), patterns=[b(x)]))
+                    elif {n, m} <= {'set', 'frozenset'} and n != m:
+                        ctx.axioms.append(z3.ForAll([x], z3.Not(z3.And(f(x), g(x))), patterns=[z3.MultiPattern(f(x), g(x))]))
+                    else:
+                        ctx.axioms.append(z3.ForAll([x], z3.Not(z3.And(f(x), g(x))), patterns=[z3.MultiPattern(f(x), g(x))]))
+            seen.append(n)
+        return f
 
     def class_name(self, c):
         if isinstance(c, VClass):
